@@ -124,7 +124,7 @@ func progClasses(body []*S) (bool, []string) {
 	return nt, cl
 }
 
-const c09Rule = "random programs of text/print/if-elseif-else/for-else/set nested to depth<=4 over lists (0..12 elements, thorough 0..40), ranges with positive/negative steps, strings incl. multi-byte, one-entry maps, nested lists, null/undefined; conditions of every value type; non-trivial = nested loops, or a loop body reading a loop counter, or an elseif/else chain, or a set inside a loop; distinct by (context, program)"
+const c09Rule = "random programs of text/print/if-elseif-else/for-else/set nested to depth<=4 over lists (0..12 elements, thorough 0..40; also as typed []int / []string slices), ranges with positive/negative steps, strings incl. multi-byte, one-entry maps, nested lists, null/undefined; conditions of every value type; set of empty values (null, undefined, '', 0) over names that already hold a value; non-trivial = nested loops, or a loop body reading a loop counter, or an elseif/else chain, or a set inside a loop; distinct by (context, program)"
 
 func TestC09Flow(t *testing.T) {
 	r := NewRec(t, "C09", c09Rule)
@@ -219,7 +219,7 @@ func TestC09Truthiness(t *testing.T) {
 // TestC09Loops enumerates loop counters over every length 0..14 for lists, strings and
 // ranges, alone and around an inner loop.
 func TestC09Loops(t *testing.T) {
-	r := NewRec(t, "C09", "exhaustive: all seven loop counters + value + key at every position of lists, strings (ASCII and multi-byte) and ranges of every length 0..14, for-else on empty, ranges over a grid of start/end/step in [-4,4] (step != 0), and the outer counters re-read after an inner loop; non-trivial = length >= 2 or empty-with-else")
+	r := NewRec(t, "C09", "exhaustive: all seven loop counters + value + key at every position of lists, strings (ASCII and multi-byte) and ranges of every length 0..14, for-else on empty, ranges over a grid of start/end/step in [-4,4] (step != 0), the outer counters re-read after an inner loop, nested loops over typed Go slices; non-trivial = length >= 2 or empty-with-else")
 	defer r.Flush()
 	r.SetExhaustive()
 	counters := func(sep string) *S {
@@ -264,6 +264,20 @@ func TestC09Loops(t *testing.T) {
 		inner := &S{K: "for", Name: "w", E: Call("range", Int(1), Int(int64((n+1)%4))), Body: []*S{Print(Attr(Var("loop"), "index"))}}
 		outer := &S{K: "for", Name: "v", E: Var("xs"), Body: []*S{counters("."), Text("<"), inner, Text(">"), counters("."), Text(";")}}
 		run(fmt.Sprint("nested", n), n >= 1, ProgCase{ctx, []*S{outer}})
+		// nested loops over typed Go slices ([]int outside, []string and []int inside)
+		tctx := Ctx{}
+		tctx.Set("xs", ZT(List(items...), "[]int"))
+		var ws []*E
+		for i := 0; i < (n+1)%5; i++ {
+			ws = append(ws, Str(alphabet[i]))
+		}
+		tctx.Set("ws", ZT(List(ws...), "[]string"))
+		tctx.Set("ys", ZT(List(Int(7), Int(8)), "[]int"))
+		for _, innerSeq := range []string{"ws", "ys", "xs"} {
+			in2 := &S{K: "for", Name: "w", E: Var(innerSeq), Body: []*S{Print(Var("w"))}}
+			out2 := &S{K: "for", Name: "v", E: Var("xs"), Body: []*S{Print(Var("v")), Text("<"), in2, Text(">"), Print(Var("v")), counters("."), Text(";")}}
+			run(fmt.Sprint("nested-typed", n, innerSeq), n >= 1, ProgCase{tctx, []*S{out2}})
+		}
 	}
 	for a := int64(-4); a <= 4; a++ {
 		for b := int64(-4); b <= 4; b++ {
